@@ -197,10 +197,40 @@ def check(ctx) -> None:
         if not ok:
             ctx.finding("C10-A4", "mcs_process.ensemble_mcs:parallel-unordered", en.loc(c), "results of the per-condition search may arrive out of order; the tables of different conditions are joined by position")
     rule_a5(ctx)
+    rule_a6(ctx)
     ok = _accumulates_in_order(en, pc)
     ctx.instance("C10-A4", "results appended in iteration order per condition", en.loc(), ok=ok)
     if not ok:
         ctx.finding("C10-A4", "mcs_process.ensemble_mcs:accumulation", en.loc(), "per-condition results are not accumulated in iteration order over the rows")
+
+
+def rule_a6(ctx) -> None:
+    """A per-reaction job hands back a record of its own.  find() merges the id and the MCS data of the selected
+    condition *into* the record returned by the fragment job; a record shared by several jobs (a variable of the
+    enclosing function, a module-level default) ends up with the data of the last reaction that touched it."""
+    from . import c11
+
+    ctx.rule("C10-A6", "every record returned by a per-reaction job is created inside that job", 2)
+    jobs = [c11.pair_job(ctx), ctx.prog.func(SAFE)]
+    for f in jobs:
+        local_fresh = set()
+        for n in own_nodes(f.node):
+            if isinstance(n, ast.Assign) and len(n.targets) == 1 and isinstance(n.targets[0], ast.Name):
+                v = n.value
+                if isinstance(v, (ast.Dict, ast.DictComp)) or (isinstance(v, ast.Call) and (getattr(v.func, "id", "") in ("dict",) or (isinstance(v.func, ast.Attribute) and v.func.attr in ("copy", "deepcopy")) or unparse(v.func) in ("copy.deepcopy", "copy.copy"))):
+                    local_fresh.add(n.targets[0].id)
+        assigned = {n.id for n in own_nodes(f.node) if isinstance(n, ast.Name) and isinstance(n.ctx, ast.Store)} | set(f.params)
+        for r in [n for n in own_nodes(f.node) if isinstance(n, ast.Return) and n.value is not None]:
+            v = r.value
+            if isinstance(v, (ast.Dict, ast.DictComp)) or (isinstance(v, ast.Name) and v.id in local_fresh):
+                ok, why = True, "fresh record"
+            elif isinstance(v, ast.Name) and v.id not in assigned:
+                ok, why = False, "%s is a variable of the enclosing scope: every job that returns it returns the same object" % v.id
+            else:
+                ok, why = True, "value computed in the job (%s)" % unparse(v)[:30]
+            ctx.instance("C10-A6", "%s: return %s - %s" % (f.name, unparse(v)[:30], why), f.loc(r), ok=ok)
+            if not ok:
+                ctx.finding("C10-A6", "%s:shared-record:%s" % (f.qualname.split("synrbl.", 1)[-1].split(".<locals>.")[-1], unparse(v)[:20]), f.loc(r), "the job returns %s; find() then writes the id and the MCS data of different reactions into one object, so they all end up with the data of the last one" % why)
 
 
 def _split_iter(f: Func, it: ast.AST) -> bool:
